@@ -164,6 +164,11 @@ def run(ctx):
     ctx.rule('R-C12g', 'COMPLETE-BEFORE-TEARDOWN: a published pool is released (pool record freed, completion event unregistered, pool lock '
                        'destroyed) only when its done queue is known empty: found empty under the pool lock in the last pool-lock region, '
                        'nothing queued and no user callback since (every item whose work function ran gets its completion)', floor=3)
+    ctx.rule('R-C12h', 'NULL pool, nested submissions: the decision of submit that the drain task is not registered agrees with the handler of '
+                       'that task whenever user code can run: if submit takes it from the emptiness of the local queue, then at every callback '
+                       'of the handler and at its return `local queue empty <=> task not registered` holds (the handler, entered with the task '
+                       'unregistered, has emptied the queue before its first callback and takes nothing off it afterwards); a decision '
+                       'taken from the registration state of the task itself needs no such agreement', floor=3)
     ctx.section(thread_bound)
     ctx.section(callbacks)
     ctx.section(queues)
@@ -171,6 +176,7 @@ def run(ctx):
     ctx.section(submit)
     ctx.section(leftover)
     ctx.section(local)
+    ctx.section(local_agreement)
     ctx.section(teardown)
 
 
@@ -401,11 +407,12 @@ def queues(ctx):
 # KICK-ON-EMPTY (R-C12c, and the local task of R-C12e)
 # ------------------------------------------------------------------------------------------------------------------
 
-def kick_on_empty(g, qkey, is_add, is_kick, lock):
+def kick_on_empty(g, qkey, is_add, is_kick, lock, known=None):
     """World (K, owed, kicked): K what is known about the emptiness of the queue now ('?', 'E', 'N'); owed: an element was
     added while the queue was known empty and the consumer was not kicked since; kicked: the consumer was kicked in this
     region.  Knowledge is dropped when the region ends (lock released / re-taken, a user callback) and when the queue may
-    have been changed.  Returns (untested adds, kicks made while the queue was neither known empty nor an element had just been
+    have been changed.  `known(atom)` -> 'empty' / 'nonempty' / None: a direct test of the state the emptiness stands for (is the
+    consumer already scheduled) is the same knowledge.  Returns (untested adds, kicks made while the queue was neither known empty nor an element had just been
     added to the empty queue, events at which a kick is owed)."""
     def boundary(e):
         if lock is not None:
@@ -433,6 +440,8 @@ def kick_on_empty(g, qkey, is_add, is_kick, lock):
                 if K != '?' and K != k2:
                     return None
                 K = k2
+            elif known is not None and known(at) is not None:
+                K = 'E' if known(at) == 'empty' else 'N'
         return (K, owed, kicked)
     W = h.worlds(g, ('?', False, False), step, edge)
     untested, offedge, owing = [], [], []
@@ -650,11 +659,144 @@ def local(ctx):
     for root, g, adds in subs:
         if not any(P.task_reg(e) for e in g.events()):
             raise AnalysisBroken('local submit %s: registration of the local task not found' % root.name)
-        untested, offedge, owing = kick_on_empty(g, P.S.localq, P.local_add, P.task_reg, None)
+        # `the task is not registered` is what the emptiness of the local queue stands for (R-C12h): a test of it is the same knowledge
+        def direct(at):
+            return {'registered': 'nonempty', 'unregistered': 'empty'}.get(h.registered_test(at, P.S.task))
+        untested, offedge, owing = kick_on_empty(g, P.S.localq, P.local_add, P.task_reg, None, known=direct)
         ctx.ob('R-C12e', '%s:task-on-empty-to-nonempty' % root.name, not untested and not offedge and not owing, loc=adds[0]['loc'],
-               detail='the local task is registered exactly when the local queue is known empty at the add%s%s%s'
+               detail='the local task is registered exactly when the local queue is known empty (or the task itself known unregistered) at the add%s%s%s'
                       % ('; emptiness NOT known at the add' if untested else '', '; registered off the empty edge' if offedge else '',
                          '; empty queue but task NOT registered' if owing else ''), fn=root.q)
+
+
+# ------------------------------------------------------------------------------------------------------------------
+# R-C12h
+# ------------------------------------------------------------------------------------------------------------------
+
+def submit_decides_by_task_state(prog, P):
+    """True when, in every exported root that links an item into the local queue, every registration of the local task is
+    reached only over an edge that found the task itself unregistered (iv_task_registered(&task) == 0, task untouched and no
+    user callback since)."""
+    S = P.S
+    subs = [c for c in h.contexts(prog, P.local_add) if not c[0].static]
+    if not subs:
+        raise AnalysisBroken('local submit: no exported function reaches the link into the queue of the NULL pool')
+    for root, g, adds in subs:
+        regs = [e for e in g.events() if P.task_reg(e)]
+        if not regs:
+            raise AnalysisBroken('local submit %s: registration of the local task not found' % root.name)
+        def step(e, w):
+            if P.task_reg(e):
+                return ['R']
+            if e['ev'] == 'call' and ('fnexpr' in e or (is_call(e, 'iv_task_unregister') and h.arg_chain(e, 0) == S.task)):
+                return ['?']
+            return [w]
+        def edge(blk, si, w):
+            for at in h.atoms_on(blk, si):
+                t = h.registered_test(at, S.task)
+                if t is not None:
+                    k = 'R' if t == 'registered' else 'U'
+                    if w != '?' and w != k:
+                        return None
+                    w = k
+            return w
+        W = h.worlds(g, '?', step, edge)
+        if any(w != 'U' for e in regs for w in W.get(pos(e), ())):
+            return False
+    return True
+
+
+AGREE = {'U?': 'task unregistered, local queue not known empty', 'UN': 'task unregistered, local queue non-empty',
+         'UE': 'task unregistered, local queue empty', 'I': 'invariant holds', 'X': 'invariant broken'}
+
+
+def local_agreement(ctx):
+    """submit registers the drain task when it finds the local queue empty: that is right only while
+    `queue empty <=> task not registered` (I) holds wherever user code -- which may submit -- runs.  The handler of the task is
+    entered with the task unregistered (the loop takes a task off its list before calling it) and the queue in any state, so I
+    is broken on entry; the handler has to establish it before its first callback and must not break it afterwards.
+    World of the handler root: U? / UN / UE = task still unregistered and the local queue unknown / non-empty / empty; I = a
+    callback ran while I held (nested submissions keep I, which side holds is unknown); X = broken.
+      * U* -> UE: all elements of the local queue detached (steal / splice_init), or an edge that found it empty;
+      * UE, I at a callback -> I; any other state at a callback or at the return is the violation;
+      * in I: anything the handler itself takes off or puts on the local queue, or a registration of the task, breaks it
+        (the queue may hold nested submissions whose registration is pending: emptied again, the next nested submission
+        registers the registered task; refilled, the task may be registered twice); an edge that finds the queue empty gives UE;
+      * UN and a registration of the task (a handler that re-schedules itself for the rest) -> I."""
+    prog = ctx.prog
+    P = Preds(prog)
+    S = P.S
+    P.need('localq', 'task')
+    by_state = submit_decides_by_task_state(prog, P)
+    def user_cb(e):
+        return work_site(e) or completion_site(e)
+    lc = pool_contexts(prog, user_cb, pool=False)
+    if not lc:
+        raise AnalysisBroken('local handler: no root runs work functions / completions without touching a pool')
+    for root, g, sites in lc:
+        it = h.Items(g)
+        def queue_op(e):
+            """None, 'detach' (local queue emptied), 'take' (an element unlinked that may be on the local queue), 'touch' (anything else)"""
+            if e['ev'] != 'call' or e.get('callee') not in h.LIST_PRIMS:
+                return None
+            keys = [h.arg_chain(e, i) for i in range(len(e.get('args', [])))]
+            if S.localq in keys:
+                return 'detach' if (e['callee'] in h.DETACH and keys[0] == S.localq) else 'touch'
+            if e['callee'] in h.DEL and e.get('args'):
+                srcs = [o[2] if o is not None else h._src_of(e['args'][0]) for o in it.arg_objects(e)]
+                if not srcs or any(src is None or src[1] == S.localq for src in srcs):
+                    return 'take'
+            return None
+        def step(e, w):
+            if w == 'X':
+                return [w]
+            if e['ev'] == 'call' and 'fnexpr' in e:
+                return ['I' if w in ('UE', 'I') else 'X']
+            if P.task_reg(e):
+                return ['I' if w == 'UN' else 'X']
+            q = queue_op(e)
+            if q is None:
+                return [w]
+            if w == 'I':
+                return ['X']
+            if q == 'detach':
+                return ['UE']
+            if q == 'take':
+                return ['UE' if w == 'UE' else 'U?']
+            return ['U?']
+        def edge(blk, si, w):
+            for at in h.atoms_on(blk, si):
+                t = h.empty_test(at, S.localq)
+                if t == 'empty':
+                    if w == 'UN':
+                        return None
+                    if w in ('U?', 'I'):
+                        w = 'UE'
+                elif t == 'nonempty':
+                    if w == 'UE':
+                        return None
+                    if w == 'U?':
+                        w = 'UN'
+            return w
+        W = h.worlds(g, 'U?', step, edge)
+        how = ('submit decides from the registration state of the task itself: no agreement needed' if by_state else
+               'submit decides from the emptiness of the local queue')
+        for kind, pred in (('work', work_site), ('completion', completion_site)):
+            es = [e for e in sites if pred(e)]
+            if not es:
+                raise AnalysisBroken('local handler %s: %s call not found' % (root.name, kind))
+            st = sorted({w for e in es for w in W.get(pos(e), ())})
+            bad = [e for e in es if any(w not in ('UE', 'I') for w in W.get(pos(e), ()))]
+            ctx.ob('R-C12h', 'local:%s:queue-agrees-with-task-at-%s' % (root.name, kind), by_state or not bad, loc=(bad or es)[0]['loc'],
+                   detail='%s; at the call of the %s function (it may submit to the NULL pool) `local queue empty <=> task not registered` '
+                          'holds: the handler emptied the local queue before its first callback and took nothing off it since; states: %s'
+                          % (how, kind, ', '.join('%s (%s)' % (x, AGREE[x]) for x in st) or 'unreachable'),
+                   path=path_to(g, bad[0]) if (bad and not by_state) else None, fn=root.q)
+        ex = sorted(h.at_exit(g, W))
+        okx = bool(ex) and all(w in ('UE', 'I') for w in ex)
+        ctx.ob('R-C12h', 'local:%s:queue-agrees-with-task-at-return' % root.name, by_state or okx, loc=root.loc,
+               detail='%s; when the handler returns `local queue empty <=> task not registered` holds (the next submission decides on it); '
+                      'states: %s' % (how, ', '.join('%s (%s)' % (x, AGREE[x]) for x in ex) or 'no return'), fn=root.q)
 
 
 # ------------------------------------------------------------------------------------------------------------------
